@@ -159,6 +159,10 @@ class ActionContext(abc.ABC):
         if self.location_action.condition is None or len(self.location_action.condition.strip()) == 0:
             return True
         result = self.trigger_context.evaluate_expression(self.location_action.condition)
+        if isinstance(result, BaseException):
+            # the condition failed to evaluate (the error is returned, not raised): whatever its message reads like
+            # (e.g. KeyError(1) reads '1'), this is not a hit
+            return False
         return str2bool(str(result))
 
 
